@@ -134,6 +134,23 @@ func c38Run(r *verifkit.R, phase string, ci int, rng *verifkit.Rand, via string,
 			}()
 		}
 	}
+	// connection cases: half of them are closed while the allocations are running
+	if via == "connection" && rng.Bool() {
+		for _, cl := range closers {
+			wg.Add(1)
+			cl := cl
+			spins := rng.Intn(200)
+			go func() {
+				defer wg.Done()
+				<-start
+				for i := 0; i < spins; i++ {
+					runtime.Gosched()
+				}
+				cl()
+			}()
+		}
+		r.Add("connections_closed_while_allocating", 2)
+	}
 	close(start)
 	wg.Wait()
 	for _, cl := range closers {
@@ -206,6 +223,15 @@ func c38Run(r *verifkit.R, phase string, ci int, rng *verifkit.Rand, via string,
 	}
 }
 
+func c38In(xs []uint64, v uint64) bool {
+	for _, x := range xs {
+		if x == v {
+			return true
+		}
+	}
+	return false
+}
+
 // c38FirstIDs: the first identifiers of very many fresh allocators / connections. A start value
 // that depends on anything but the role (a random base, say) shows only on the first Next() of
 // a rare allocator, so the sample has to be large: >= 10^6 allocators and 2*10^5 connections per
@@ -234,6 +260,10 @@ func c38FirstIDs(r *verifkit.R) {
 						next, cl := mk(dialer)
 						ids := []uint64{next(), next(), next()}
 						cl()
+						// ids asked for after Close() are held to the same rules (every 8th object)
+						if i%8 == 0 {
+							ids = append(ids, next(), next())
+						}
 						side := map[bool]string{true: "dialer", false: "acceptor"}[dialer]
 						for k, id := range ids {
 							switch {
@@ -241,8 +271,8 @@ func c38FirstIDs(r *verifkit.R) {
 								local = append(local, bad{side + ":zero-id", fmt.Sprintf("a fresh %s-side %s returned 0 (the control stream id) as id #%d", side, via, k+1), ids})
 							case (id%2 == 1) != dialer:
 								local = append(local, bad{side + ":wrong-parity", fmt.Sprintf("a fresh %s-side %s returned id %d as id #%d", side, via, id, k+1), ids})
-							case k > 0 && (ids[k-1] == id || ids[0] == id):
-								local = append(local, bad{side + ":duplicate-id", fmt.Sprintf("a fresh %s-side %s returned id %d twice within its first 3 ids", side, via, id), ids})
+							case k > 0 && c38In(ids[:k], id):
+								local = append(local, bad{side + ":duplicate-id", fmt.Sprintf("a fresh %s-side %s returned id %d twice within its first ids (the last two are asked for after Close)", side, via, id), ids})
 							}
 						}
 						if len(local) > 8 {
